@@ -55,7 +55,20 @@ def run(ck):
             ex = scanex.Explorer(ms, symbols, term); ex.run(leaf)
             return ex.configs, ex.transitions, found
         return task
-    res = forkmap.forkmap([task_same(0x40), task_same(0x00), task_incl(0x40), task_incl(0x00)])
+    def task_pair_codes(term):
+        def task():
+            found = {}
+            ms = machines(term, ('5321', '6531'))
+            def leaf(results, witness):
+                if results[0][0] == results[1][0]: return
+                w = [s for s in witness if s != END]
+                cls = 'codes-differ-5321-6531:' + '/'.join(lp.errname(fns['822'][0], r[0]) for r in results)
+                if cls not in found or len(w) < len(found[cls][0]): found[cls] = (w, [where(r[1]) if r[1] else None for r in results])
+            ex = scanex.Explorer(ms, ascii_syms, term); ex.run(leaf)
+            return ex.configs, ex.transitions, found
+        return task
+    extra = [task_pair_codes(0x40), task_pair_codes(0x00)] if ck.tier == 'thorough' else []
+    res = forkmap.forkmap([task_same(0x40), task_same(0x00), task_incl(0x40), task_incl(0x00)] + extra)
     def merge(rs):
         found = {}
         for r in rs:
@@ -78,6 +91,12 @@ def run(ck):
         r2.instance('src/is_5321_local.c~src/is_822_local.c', ok=False, wclass=cls, witness=scanex.show(w),
                     what=f'{scanex.show(w)!r} is accepted by is_5321_local but is_822_local returns {cls.split(":")[1]} at {ats[0]}')
     ck.sample({'rule': 'O12.2', 'symbols': len(symbols), 'configurations': c, 'transitions': t})
+    if ck.tier == 'thorough':
+        r3b = ck.rule('O12.3', '(thorough) modes 5321 and 6531 return the same code on every pure-ASCII local part, quotes and escapes included', 1)
+        c, t, found = merge(res[4:6]); ck.mc(c, t)
+        if not found: r3b.instance('src/is_5321_local.c~src/is_6531_local.c', ok=True, detail={'configurations': c, 'transitions': t})
+        for cls, (w, ats) in sorted(found.items()):
+            r3b.instance('src/is_5321_local.c~src/is_6531_local.c', ok=False, wclass=cls, witness=scanex.show(w), what=f'on the ASCII local part {scanex.show(w)!r} modes 5321 / 6531 return {cls.split(":", 1)[1]} (returns at {ats})')
     # ---- R12.3
     twin_agreement(ck, 'R12.3')
     ck.assume('mode 6531 may report an IDN-library error for the domain instead (structural exemption: C10 R10.2)')
